@@ -3,7 +3,10 @@ postcondition on Python values.  Each check takes a JSON-able input and returns
 {"fails": bool, "expected": .., "observed": ..}.  Used to replay counter-models (DESIGN 2.2)
 and by the bounded stand-ins (DESIGN 2.5)."""
 import importlib
+import logging
 import traceback
+
+logging.disable(logging.CRITICAL)  # the reader logs every skipped frame in log mode
 
 CHECKS = {}
 
@@ -229,7 +232,8 @@ def reader_safety(inp):
     from spec.streams import wf_frame
     data = bytes.fromhex(inp["data"])
     validate, q, parsed, handler = inp.get("validate", 1), inp.get("quitonerror", 1), inp.get("parsed", True), inp.get("handler", False)
-    events, calls, st = _drive(data, inp.get("cuts", []), validate, q, parsed, handler)
+    lm = inp.get("labelmsm", 1)
+    events, calls, st = _drive(data, inp.get("cuts", []), validate, q, parsed, handler, labelmsm=lm)
     last_end = 0
     for ev in events:
         if ev[0] == "nonterminating":
@@ -253,8 +257,59 @@ def reader_safety(inp):
         if parsed:
             if msg is None or msg.payload != raw[3:-3] or msg.identity != ident(raw[3:-3]):
                 return {"fails": True, "expected": "message carrying the slice's payload and number", "observed": repr(msg)[:80]}
+            from spec import refdecode
+            ref = refdecode.ref_decode(raw[3:-3], lm)
+            got = {k: v for k, v in msg.__dict__.items() if not k.startswith("_")}
+            if ref[0] != "ok" or ref[1] != got:
+                return {"fails": True, "expected": f"attributes of the payload decoded with labelmsm={lm}",
+                        "observed": str({k: (ref[1].get(k) if ref[0] == 'ok' else None, got.get(k)) for k in got if ref[0] != 'ok' or ref[1].get(k) != got.get(k)})[:300]}
         elif msg is not None:
             return {"fails": True, "expected": "no parsed object when parsed=False", "observed": repr(msg)[:80]}
     if q == 0 and calls:
         return {"fails": True, "expected": "handler never called in ignore mode", "observed": calls[:5]}
     return {"fails": False, "events": len(events)}
+
+
+@check
+def reader_complete(inp):
+    """C02 / C05 / C17 on one well-formed item list (fault-free stream): the expectation is
+    computed from the item list, not from the reader."""
+    from spec import refdecode
+    from spec.crc import crc_bytes
+    items = [(k, bytes.fromhex(h)) for k, h in inp["items"]]
+    validate, q, parsed, handler = inp.get("validate", 1), inp.get("quitonerror", 1), inp.get("parsed", True), inp.get("handler", True)
+    lm = inp.get("labelmsm", 1)
+    data = b"".join(b for _, b in items)
+    exp = []  # ("ret", raw) | ("bad", end_pos)
+    pos = 0
+    for k, b in items:
+        pos += len(b)
+        if k not in ("rtcm", "filler", "damaged"):
+            continue
+        crc_ok = crc_bytes(b) == 0
+        p = b[3:-3]
+        short = len(p) < 2 or (len(p) < 3 and p[0] == 0xFE and p[1] >> 4 == 0xC)
+        pok = (not short) and refdecode.ref_decode(p, lm)[0] == "ok"
+        ret = (not parsed) or (((not validate & 1) or crc_ok) and pok)
+        exp.append(("ret", b.hex()) if ret else ("bad", pos))
+    events, calls, st = _drive(data, [], validate, q, parsed, handler, labelmsm=lm)
+    obs = []
+    for ev in events:
+        if ev[0] == "raise":
+            obs.append(("bad", ev[3]) if ev[1] in LIBS else ("foreign", ev[1]))
+        elif ev[0] == "ret" and ev[1] is not None:
+            obs.append(("ret", ev[1].hex()))
+            if (ev[2] is None) != (not parsed):
+                return {"fails": True, "expected": "parsed object iff parsing on", "observed": repr(ev[2])[:60]}
+        elif ev[0] == "nonterminating":
+            obs.append(("nonterminating",))
+    nbad = sum(1 for e in exp if e[0] == "bad")
+    if q == 2:
+        want = exp
+    else:
+        want = [e for e in exp if e[0] == "ret"]
+    want_calls = nbad if (q == 1 and handler) else 0
+    fails = obs != want or len(calls) != want_calls or st.pos != len(data)
+    short_ = lambda l: [(a, (b[:24] + ".." if isinstance(b, str) and len(b) > 26 else b)) for a, b, *_ in [x + (None,) for x in l]][:8]
+    return {"fails": fails, "expected": {"events": short_(want), "handler_calls": want_calls, "consumed": len(data)},
+            "observed": {"events": short_(obs), "handler_calls": len(calls), "consumed": st.pos}}
